@@ -36,13 +36,14 @@ class Untranslatable(Exception):
 def is_log_call(node):
     return isinstance(node, ast.Expr) and isinstance(node.value, ast.Call) and \
         isinstance(node.value.func, ast.Attribute) and isinstance(node.value.func.value, ast.Name) and \
-        node.value.func.value.id in ('log', 'logging', 'warnings')
+        node.value.func.value.id in ('log', 'logging', 'warnings', 'audit_log')
 
 
 class Translator:
     def __init__(self, module_ast):
         self.classes = {n.name: n for n in module_ast.body if isinstance(n, ast.ClassDef)}
         self.helpers = {n.name: n for n in module_ast.body if isinstance(n, ast.FunctionDef)}
+        self.emitted = {}        # method name -> self attributes it reads (methods translated into definitions of their own)
 
     # ---- class structure
     def method(self, cname, mname, seen=()):
@@ -135,6 +136,15 @@ class Translator:
         if isinstance(e, ast.Attribute) and isinstance(e.value, ast.Name) and e.value.id in env and e.value.id != 'self':
             prim = 'attrPolicyM' if e.attr in ('start_tag', 'end_tag') else 'attrM'
             return '(%s %s "%s")' % (prim, env[e.value.id], e.attr)
+        if isinstance(e, ast.ListComp) and len(e.generators) == 1 and len(e.generators[0].ifs) == 1 and \
+                isinstance(e.generators[0].target, ast.Name) and isinstance(e.elt, ast.Name) and \
+                e.elt.id == e.generators[0].target.id:
+            g = e.generators[0]
+            self.fresh += 1
+            name = 'c%d_%s' % (self.fresh, g.target.id)
+            env2 = dict(env)
+            env2[g.target.id] = '(pure %s)' % name
+            return '(filterCompM %s fun %s => %s)' % (self.expr(g.iter, env, cname), name, self.expr(g.ifs[0], env2, cname))
         if isinstance(e, ast.ListComp) and len(e.generators) == 1 and not e.generators[0].ifs and \
                 isinstance(e.generators[0].target, ast.Name):
             g = e.generators[0]
@@ -180,6 +190,34 @@ class Translator:
                 if f.id in env and not e.args:
                     return '(callValue %s)' % env[f.id]
                 raise Untranslatable('call of %s' % f.id)
+            if isinstance(f, ast.Attribute) and isinstance(f.value, ast.Attribute) and isinstance(f.value.value, ast.Name) \
+                    and f.value.value.id == 'self' and (f.value.attr, f.attr) in (('checker', 'fits'), ('storage', 'find_for_inquiry')):
+                self.attrs.add(f.value.attr)
+                prim = 'methFits' if f.attr == 'fits' else 'methFind'
+                want = 4 if f.attr == 'fits' else 2
+                if len(e.args) != want:
+                    raise Untranslatable('%s with %d arguments' % (f.attr, len(e.args)))
+                return '(%s (pure self_%s) %s)' % (prim, f.value.attr, ' '.join(self.expr(a, env, cname) for a in e.args))
+            if isinstance(f, ast.Attribute) and f.attr == 'allow_access' and not e.args:
+                return '(methAllowAccess %s)' % self.expr(f.value, env, cname)
+            if isinstance(f, ast.Attribute) and f.attr == 'items' and not e.args and isinstance(f.value, ast.Attribute) and \
+                    f.value.attr == 'context' and isinstance(f.value.value, ast.Name) and f.value.value.id in env:
+                return '(contextItemsM %s)' % env[f.value.value.id]
+            if isinstance(f, ast.Attribute) and isinstance(f.value, ast.Name) and f.value.id == 'self' and \
+                    f.attr in self.emitted:
+                # a method of the same class that was translated into a definition of its own
+                attrs = self.emitted[f.attr]
+                for a in attrs:
+                    self.attrs.add(a)
+                names, binds = [], []
+                for a in e.args:
+                    self.fresh += 1
+                    names.append('a%d' % self.fresh)
+                    binds.append(self.expr(a, env, cname))
+                inner = '(%s_%s %s)' % (f.attr, cname, ' '.join(['self_%s' % a for a in attrs] + names))
+                for nm, val in reversed(list(zip(names, binds))):
+                    inner = '(bindM %s fun %s => %s)' % (val, nm, inner)
+                return inner
             if isinstance(f, ast.Attribute) and isinstance(f.value, ast.Name) and f.value.id == 'self' and \
                     self.method(cname, f.attr) is not None:
                 m = self.method(cname, f.attr)
@@ -226,6 +264,40 @@ class Translator:
             if end == 'cNone':
                 raise Untranslatable('continue outside a loop')
             return end
+        if isinstance(s, ast.For) and isinstance(s.target, ast.Tuple) and not s.orelse and \
+                all(isinstance(t, ast.Name) for t in s.target.elts):
+            self.fresh += 1
+            x, k = 'l%d_pair' % self.fresh, 'k%d' % self.fresh
+            env2 = dict(env)
+            inner_binds = []
+            for i, t in enumerate(s.target.elts):
+                nm = 'l%d_%s' % (self.fresh, t.id)
+                env2[t.id] = '(pure %s)' % nm
+                inner_binds.append((nm, '(seqItemM (pure %s) %d)' % (x, i)))
+            body = self.block(s.body, env2, cname, end=k)
+            for nm, val in reversed(inner_binds):
+                body = '(bindM %s fun %s =>\n      %s)' % (val, nm, body)
+            return '(pyFor %s (fun %s %s =>\n      %s)\n      %s)' % (self.expr(s.iter, env, cname), x, k, body,
+                                                                   self.block(rest, env, cname, end))
+        if isinstance(s, ast.Try) and not s.orelse and not s.finalbody and len(s.handlers) == 1 and \
+                isinstance(s.handlers[0].type, ast.Name):
+            h = s.handlers[0]
+            body = [b for b in s.body if not is_log_call(b)]
+            if h.type.id == 'KeyError' and len(body) == 1 and isinstance(body[0], ast.Assign) and \
+                    len(body[0].targets) == 1 and isinstance(body[0].targets[0], ast.Name) and \
+                    isinstance(body[0].value, ast.Subscript):
+                sub = body[0].value
+                name = 'v_' + body[0].targets[0].id
+                env2 = dict(env)
+                env2[body[0].targets[0].id] = '(pure %s)' % name
+                return '(trySubscriptM %s %s\n      %s\n      (fun %s => %s))' % (
+                    self.expr(sub.value, env, cname), self.expr(sub.slice, env, cname),
+                    self.block(h.body + rest, env, cname, end), name, self.block(rest, env2, cname, end))
+            if h.type.id == 'Exception' and all(isinstance(r, ast.Return) and isinstance(r.value, ast.Name) for r in rest):
+                # what follows the try statement only returns a name: it cannot raise, so it may move into both arms
+                return '(catchAllM %s\n      %s)' % (self.block(s.body + rest, env, cname, end),
+                                                     self.block(h.body + rest, env, cname, end))
+            raise Untranslatable('try / except ' + h.type.id)
         if isinstance(s, ast.For) and isinstance(s.target, ast.Name) and not s.orelse:
             self.fresh += 1
             x, k = 'l%d_%s' % (self.fresh, s.target.id), 'k%d' % self.fresh
@@ -269,14 +341,17 @@ class Translator:
         if f is None:
             raise Untranslatable('no %s method' % mname)
         params = [a.arg for a in f.args.args]
-        if params[:1] != ['self']:
-            raise Untranslatable('signature %r' % params)
+        static = any(isinstance(d, ast.Name) and d.id == 'staticmethod' for d in f.decorator_list)
+        if not static:
+            if params[:1] != ['self']:
+                raise Untranslatable('signature %r' % params)
+            params = params[1:]
         self.attrs, self.fresh = set(), 0
-        env = {p: '(pure p_%s)' % p for p in params[1:]}
+        env = {p: '(pure p_%s)' % p for p in params}
         body = self.block(f.body, env, cname)
-        if self.attrs:
-            raise Untranslatable('instance attributes %r' % sorted(self.attrs))
-        sig = ' '.join('p_%s' % p for p in params[1:])
+        attrs = sorted(self.attrs)
+        self.emitted[mname] = attrs
+        sig = ' '.join(['self_%s' % a for a in attrs] + ['p_%s' % p for p in params])
         return '%s_%s (%s : V) : M :=\n    %s\n' % (mname, cname, sig, body)
 
 
@@ -336,6 +411,31 @@ def translate_checkers(repo):
     return '\n'.join(out) + '\n', [('checker', c, []) for c in checkers], [('checker', c, r) for c, r in unchecked]
 
 
+GUARD_METHODS = ['check_context_restriction', 'check_policies_allow', 'is_allowed_check']
+
+
+def translate_guard(repo):
+    out = ['import Model.PyPrim', '/-! GENERATED by harness/pytolean.py from vakt/guard.py - do not edit -/',
+           'set_option linter.unusedVariables false', 'namespace Vakt.GenGuard', 'open Vakt Vakt.PyPrim', '']
+    done, failed = [], []
+    tr = Translator(ast.parse(open(os.path.join(repo, 'vakt', 'guard.py')).read()))
+    for m in GUARD_METHODS:
+        try:
+            text = tr.checker_method('Guard', m)
+            out.append('/-- `vakt.guard.Guard.%s` -/' % m)
+            out.append('def ' + text)
+            done.append(m)
+        except Untranslatable as e:
+            failed.append((m, str(e)))
+    out.append('/-- the methods of `Guard` that were translated -/')
+    out.append('def translatedGuard : List String := [%s]' % ', '.join('"%s"' % c for c in done))
+    out.append('def untranslatedGuard : List (String × String) := [%s]' % ', '.join(
+        '("%s", "%s")' % (c, r.replace('"', "'")) for c, r in failed))
+    out.append('')
+    out.append('end Vakt.GenGuard')
+    return '\n'.join(out) + '\n', [('guard', c, []) for c in done], [('guard', c, r) for c, r in failed]
+
+
 def _write(path, text):
     os.makedirs(os.path.dirname(path), exist_ok=True)
     old = open(path).read() if os.path.exists(path) else None
@@ -365,7 +465,16 @@ def regenerate(repo, lean_dir):
                  % str(e).replace('-/', '- /')[:300])
         ctr, cun = [], [('checker', '*', str(e))]
     changed = _write(os.path.join(lean_dir, 'Gen', 'Checkers.lean'), ctext) or changed
-    return changed, translated + ctr, untranslated + cun
+    try:
+        gtext, gtr, gun = translate_guard(repo)
+    except Exception as e:
+        gtext = ('import Model.PyPrim\n/-! GENERATED by harness/pytolean.py: translation failed: %s -/\n'
+                 'namespace Vakt.GenGuard\ndef translatedGuard : List String := []\n'
+                 'def untranslatedGuard : List (String × String) := []\nend Vakt.GenGuard\n'
+                 % str(e).replace('-/', '- /')[:300])
+        gtr, gun = [], [('guard', '*', str(e))]
+    changed = _write(os.path.join(lean_dir, 'Gen', 'Guard.lean'), gtext) or changed
+    return changed, translated + ctr + gtr, untranslated + cun + gun
 
 
 if __name__ == '__main__':
@@ -373,5 +482,7 @@ if __name__ == '__main__':
     text, tr, un = translate(repo)
     if '--checkers' in sys.argv:
         text, tr, un = translate_checkers(repo)
+    if '--guard' in sys.argv:
+        text, tr, un = translate_guard(repo)
     sys.stdout.write(text)
     sys.stderr.write('translated %d, untranslated %d: %r\n' % (len(tr), len(un), un))
